@@ -54,6 +54,7 @@ from _griffe.docstrings.models import (
 )
 from _griffe.docstrings.utils import docstring_warning, parse_docstring_annotation
 from _griffe.enumerations import DocstringSectionKind, LogLevel
+from _griffe.exceptions import AliasResolutionError, CyclicAliasError
 from _griffe.expressions import ExprName
 
 if TYPE_CHECKING:
@@ -558,7 +559,7 @@ def _read_attributes_section(
             name = name_type
             annotation = None
         if annotation is None:
-            with suppress(AttributeError, KeyError, TypeError, ValueError):
+            with suppress(AttributeError, KeyError, TypeError, ValueError, AliasResolutionError, CyclicAliasError):
                 # Use subscript syntax to fetch annotation from inherited members too.
                 annotation = docstring.parent[name].annotation  # type: ignore[index]
         else:
